@@ -267,6 +267,13 @@ class Prop:
                         pass
                 except Horizon:
                     res.capped = True
+                # a process that is closed by its owner before it ever ran: its on_close hook is code of that process
+                try:
+                    closed_early = Proc(inputs={'name': 'Z', 'role': 'plain'}, pid='Z', loop=loop)
+                    closed_early.close()
+                    env.sample('harness', 'after-early-close', None)
+                except Horizon:
+                    res.capped = True
                 # judge every sample
                 seen = set()
                 for site_class, site, who, cur in env.records:
